@@ -18,6 +18,7 @@ def dispatch (j : Json) : Except String Json := do
   | "table" => handleTable op j
   | "ini" => handleIni op j
   | "interp" => handleInterp op j
+  | "validate" => handleValidate op j
   | _ => throw s!"unknown model {m}"
 
 def step (line : String) : String :=
